@@ -345,3 +345,285 @@ example : ∀ x ∈ crashStates cEnv cN cOps,
     rowsEq x.s.ZU (applyPool cEnv x.s.pool (canon cEnv cG x.s.pointer)).ZU = true := by decide
 
 end XV.C06
+
+namespace XV.C06
+open XV.Chain XV.Crash XV.C01 XV.C02
+
+-- ------------------------------------------------------------------ 2 (b). the ledger in a crash state
+
+/-- `b` is a stored block of ledger `l` -/
+def Stored (l : XV.Ledger.L) (b : Nat) : Prop := (lookup l.B b).isSome = true
+
+instance (l : XV.Ledger.L) (b : Nat) : Decidable (Stored l b) := by unfold Stored; exact inferInstance
+
+/-- side conditions of one operation for the ledger part, at the node of the uninterrupted run it starts from:
+* `confirm`: the hypotheses of C04 `confirm_inv` (a valid block repeats no transaction of its own branch; a re-confirmed
+  truncated id carries its old transactions);
+* `play` / `playForMiner`: the block has been confirmed before (the node's sequence is ConfirmBlock, then play);
+* `walk`: `WalkTree`, and the ledger stores both branches (`FindUndoAndTodoBlocks` reads them from the ledger);
+* `truncate`: the target is on the main chain (C04 `truncate_inv`) and THE STATE HAS BEEN WALKED BACK FIRST: the block
+  its pointer names is not higher than the target (`truncateForMiner`: `State.Walk(target)`, then `Ledger.Truncate`). -/
+def LedgerStep (e : Env) (n : Node) : Op → Prop
+  | .submit _ => True
+  | .confirm b =>
+    (∀ t, t ∈ (confirmArgs e b).map (·.1) → t ∉ XV.Ledger.branchTxs n.l ((e.block b).pre.getD 0)) ∧
+    (∀ p, p ∈ n.l.C → p.2 = (e.block b).id → p.1 ∈ (confirmArgs e b).map (·.1))
+  | .play b => Stored n.l (e.block b).id
+  | .playMiner b => Stored n.l (e.block b).id
+  | .walk dest _ => WalkTree e n.s.pointer dest ∧
+    ∀ b, (b ∈ ancestors e (e.blocks.length + 1) n.s.pointer ∨ b ∈ ancestors e (e.blocks.length + 1) dest) → Stored n.l b
+  | .truncate dest => dest ∈ XV.Ledger.pathOf n.l n.l.tip ∧
+    ∃ hp hd, lookup n.l.B n.s.pointer = some hp ∧ lookup n.l.B dest = some hd ∧ hp.height ≤ hd.height
+
+/-- **(b) the ledger in a crash state.** Ledger batches are atomic, so the ledger of every crash state is the ledger
+after a completed prefix of the history; it satisfies the full main-chain invariant `LedgerInv` of C04; and the block
+the state's persisted pointer names is stored in it — whatever ledger batch was written or lost, and wherever inside a
+walk the state machine stopped. Hypotheses: the invariant and the stored pointer at the start, and `LedgerStep` for
+every operation of the history (in particular: truncation only after the state has been walked back). -/
+theorem crash_ledger_invariant (e : Env) (n : Node) (ops : List Op) (I : XV.Ledger.LedgerInv n.l)
+    (hp : Stored n.l n.s.pointer)
+    (hsteps : ∀ k op, ops[k]? = some op → LedgerStep e (run e n (ops.take k)) op)
+    (x : Node) (hx : x ∈ crashStates e n ops) :
+    (∃ k, k ≤ ops.length ∧ x.l = (run e n (ops.take k)).l) ∧ XV.Ledger.LedgerInv x.l ∧ Stored x.l x.s.pointer := by
+  -- along the uninterrupted run
+  have hrun : ∀ k, k ≤ ops.length →
+      XV.Ledger.LedgerInv (run e n (ops.take k)).l ∧ Stored (run e n (ops.take k)).l (run e n (ops.take k)).s.pointer := by
+    intro k
+    induction k with
+    | zero => intro _; exact ⟨I, hp⟩
+    | succ k ih =>
+      intro hk
+      have hlt : k < ops.length := by omega
+      obtain ⟨I', hp'⟩ := ih (by omega)
+      have hop : ops[k]? = some ops[k] := List.getElem?_eq_getElem hlt
+      have hstep := hsteps k _ hop
+      rw [run_take_succ e n ops k _ hop]
+      generalize run e n (ops.take k) = m at I' hp' hstep
+      generalize ops[k] = op at hstep
+      cases op with
+      | submit i =>
+        refine ⟨I', ?_⟩
+        show Stored m.l (doTx e m.s (lh m) i).1.pointer
+        rw [doTx_pointer]; exact hp'
+      | confirm b =>
+        exact ⟨XV.C04.confirm_inv m.l _ _ _ I' hstep.1 hstep.2, confirm_keeps_blocks m.l _ _ _ _ hp'⟩
+      | play b =>
+        refine ⟨I', ?_⟩
+        show Stored m.l (play e m.s (lh m) (e.block b)).1.pointer
+        rcases play_pointer e m.s (lh m) (e.block b) with h | h
+        · rw [h]; exact hp'
+        · rw [h]; exact hstep
+      | playMiner b =>
+        refine ⟨I', ?_⟩
+        show Stored m.l (playForMiner e m.s (lh m) (e.block b)).1.pointer
+        rcases playForMiner_pointer e m.s (lh m) (e.block b) with h | h
+        · rw [h]; exact hp'
+        · rw [h]; exact hstep
+      | walk dest prune =>
+        refine ⟨I', ?_⟩
+        show Stored m.l (walk e m.s (lh m) dest prune).1.pointer
+        exact hstep.2 _ (walkTrace_pointer_mem e m.s (lh m) dest prune hstep.1 _
+          (List.mem_of_getLast? (walkTrace_getLast e m.s (lh m) dest prune)))
+      | truncate dest =>
+        obtain ⟨hon, hph, hdh, s1, s2, hle⟩ := hstep
+        exact ⟨XV.C04.truncate_inv m.l dest I' hon, XV.Ledger.truncate_keeps_low I' dest s2 s1 hle⟩
+  obtain ⟨k, hk, h | ⟨dest, prune, hop, hl, hs⟩⟩ := mem_crashStates e ops n x hx
+  · rw [h]; exact ⟨⟨k, hk, rfl⟩, hrun k hk⟩
+  · refine ⟨⟨k, hk, hl⟩, by rw [hl]; exact (hrun k hk).1, ?_⟩
+    obtain ⟨W, hst⟩ := hsteps k _ hop
+    rw [hl]
+    exact hst _ (walkTrace_pointer_mem e _ _ dest prune W x.s hs)
+
+-- every crash state of the example history: the pointer's block is stored, and the ledger is one of the four ledgers of
+-- the uninterrupted run (tips 1, 2, 2 with the side block 3, 4)
+example : ∀ x ∈ crashStates cEnv cN cOps, Stored x.l x.s.pointer ∧
+    (x.l.tip, x.l.B.length) ∈ [(1, 1), (2, 2), (2, 3), (4, 4)] := by decide
+example : XV.Ledger.LedgerInv cM.l := by
+  have I0 := XV.C04.genesis_inv 1 []
+  have I1 := XV.C04.confirm_inv _ 2 1 (confirmArgs cEnv 2) I0 (by decide) (by decide)
+  have I2 := XV.C04.confirm_inv _ 3 1 (confirmArgs cEnv 3) I1 (by decide) (by decide)
+  exact XV.C04.confirm_inv _ 4 3 (confirmArgs cEnv 4) I2 (by decide) (by decide)
+-- truncation before the state is walked back leaves the pointer dangling (why the hypothesis is there): ledger
+-- truncated to block 1 while the state still stands on block 2
+example : ¬ Stored (runOp cEnv (run cEnv cN (cOps.take 2)) (.truncate 1)).l
+    (runOp cEnv (run cEnv cN (cOps.take 2)) (.truncate 1)).s.pointer := by decide
+
+-- ------------------------------------------------------------------ 2 (c). recovery
+
+/-- **an interrupted walk can be resumed**: from every block-boundary state `x` of the trace of a walk, the walk to
+the same destination (same ledger height, same prune flag) performs exactly the remaining batches and returns what
+the interrupted walk would have returned before re-admitting its pool — same verdict, same state, field by field -/
+theorem crash_walk_resume (e : Env) (s : St) (lh : Int) (dest : Nat) (prune : Bool) (W : WalkTree e s.pointer dest)
+    (x : St) (hx : x ∈ walkMid e s lh dest prune) :
+    walk e x lh dest prune = walkCore e s lh dest prune ∧
+    (walk e x lh dest prune).2 = (walk e s lh dest prune).2 ∧
+    ((walk e s lh dest prune).2 = true →
+      (walk e s lh dest prune).1 = s.pool.foldl (fun st i => (doTx e st lh i).1) (walk e x lh dest prune).1) ∧
+    ((walk e s lh dest prune).2 = false → (walk e x lh dest prune).1 = (walk e s lh dest prune).1) := by
+  have h := XV.Crash.walk_resume e s lh dest prune W x hx
+  refine ⟨h, by rw [h, walk_ok_iff_core], ?_, ?_⟩
+  · intro hok
+    rw [walk_ok_iff_core] at hok
+    rw [h, walk_eq_core, if_pos hok]
+  · intro hok
+    rw [walk_ok_iff_core] at hok
+    rw [h, walk_eq_core, hok]
+    rfl
+
+/-- **(c) recovery after a crash inside the synchronisation walk reaches the state of the uninterrupted run.**
+Operation `k` of the history walks the state to the ledger tip (`walk tip false`, the node's step after
+`ConfirmBlock` switched the trunk, and the restart itself); the process dies after any batch of it, leaving
+`x = (ledger of the run, s')` with `s'` any element of the trace. Then `x` is a crash state of the history and, with
+`B` the part of the old pool `A ++ B` whose re-admission batches had not been written (the whole old pool when the
+crash hit before the first re-admission batch):
+* the restart succeeds exactly when the uninterrupted walk succeeds;
+* on success the state of the uninterrupted run is the recovered state with `B` re-admitted on it, oldest first: all
+  seven fields equal when `B = []`; in general the pool differs exactly by the transactions of `B` that pass
+  admission, and the tables (U, ZU, ZD, total) by the effects of those — pointer and irreversible height are equal
+  (`doTx` touches neither);
+* on failure both stop in the same state;
+* the ledger is that of the uninterrupted run. -/
+theorem crash_recovery_confluent (e : Env) (n : Node) (ops : List Op) (k : Nat)
+    (hop : ops[k]? = some (.walk (run e n (ops.take k)).l.tip false))
+    (W : WalkTree e (run e n (ops.take k)).s.pointer (run e n (ops.take k)).l.tip)
+    (s' : St)
+    (hs' : s' ∈ walkTrace e (run e n (ops.take k)).s (lh (run e n (ops.take k))) (run e n (ops.take k)).l.tip false) :
+    (run e n (ops.take k)).withState s' ∈ crashStates e n ops ∧
+    run e n (ops.take (k + 1)) = (run e n (ops.take k)).withState
+      (walk e (run e n (ops.take k)).s (lh (run e n (ops.take k))) (run e n (ops.take k)).l.tip false).1 ∧
+    ∃ A B, (run e n (ops.take k)).s.pool = A ++ B ∧
+      (recover e ((run e n (ops.take k)).withState s')).1.l = (run e n (ops.take (k + 1))).l ∧
+      (recover e ((run e n (ops.take k)).withState s')).2 =
+        (walk e (run e n (ops.take k)).s (lh (run e n (ops.take k))) (run e n (ops.take k)).l.tip false).2 ∧
+      ((walk e (run e n (ops.take k)).s (lh (run e n (ops.take k))) (run e n (ops.take k)).l.tip false).2 = true →
+        (run e n (ops.take (k + 1))).s =
+          B.foldl (fun st i => (doTx e st (lh (run e n (ops.take k))) i).1)
+            (recover e ((run e n (ops.take k)).withState s')).1.s) ∧
+      ((walk e (run e n (ops.take k)).s (lh (run e n (ops.take k))) (run e n (ops.take k)).l.tip false).2 = false →
+        (recover e ((run e n (ops.take k)).withState s')).1.s = (run e n (ops.take (k + 1))).s) := by
+  have hmem := walkTrace_mem_crashStates e ops n k _ false hop s' hs'
+  have hy := run_take_succ e n ops k _ hop
+  refine ⟨hmem, hy, ?_⟩
+  obtain ⟨A, B, h1, h2, h3, h4, h5⟩ := recover_sync e (run e n (ops.take k)) W s' hs'
+  refine ⟨A, B, h1, ?_, h3, ?_, ?_⟩
+  · rw [h2, hy]; rfl
+  · intro hok; rw [hy]; exact h4 hok
+  · intro hf; rw [hy]; exact h5 hf
+
+-- the walk across the fork, interrupted after each of its five batches: the restart succeeds, ends at the ledger tip 4,
+-- and re-admitting the rest of the old pool [22, 23] on the recovered state gives the state of the uninterrupted run —
+-- rows, key tables, total, pointer, irreversible height, pool
+example : ∀ s' ∈ walkTrace cEnv cM.s (lh cM) 4 false,
+    (recover cEnv (cM.withState s')).2 = true ∧ (recover cEnv (cM.withState s')).1.s.pointer = 4 ∧
+    (let y := (run cEnv cN cOps).s
+     let r := [22, 23].foldl (fun st i => (doTx cEnv st (lh cM) i).1) (recover cEnv (cM.withState s')).1.s
+     r.U = y.U ∧ r.ZU = y.ZU ∧ r.ZD = y.ZD ∧ r.total = y.total ∧ r.pointer = y.pointer ∧ r.irrev = y.irrev ∧
+       r.pool = y.pool) := by decide
+-- what the restart itself leaves in the pool: nothing, unless the re-admission batch of 23 had been written
+example : (walkTrace cEnv cM.s (lh cM) 4 false).map (fun s' => (recover cEnv (cM.withState s')).1.s.pool) =
+    [[], [], [], [], [23]] ∧ (run cEnv cN cOps).s.pool = [23] := by decide
+
+/-- the full statement "the restart reaches the same state as the uninterrupted run, pool included" -/
+def crash_recovery_same_state_statement : Prop :=
+  ∀ (e : Env) (m : Node), WalkTree e m.s.pointer m.l.tip →
+    ∀ s' ∈ walkTrace e m.s (lh m) m.l.tip false,
+      (recover e (m.withState s')).1.s.pool = (walk e m.s (lh m) m.l.tip false).1.pool
+
+/-- **it is false of the model** (and the model is the code's batch structure): a pending transaction that was rolled
+back by batch (1) of the walk and whose re-admission batch had not been written when the process died is gone from the
+pool table — after the restart nobody re-submits it. Witness (`cEnv`, node `cM`: ledger tip 4, state at block 2, pool
+[22, 23]; `Walk(4)`): die after the batch that applies block 4 (write group 3 of the walk, counting the roll-back as
+0) and before the `DoTx` batch of 23. On disk: pointer 4, pool table empty. Restart: the pointer is the ledger tip,
+nothing to do; pool = []. Uninterrupted run: pool = [23]. To replay on the real code: node at the tip of a branch with a
+pending transaction that is valid on both branches, `ConfirmBlock` of a longer sibling branch, `Walk(new tip)` with the
+write log cut right after the last block batch; reopen, `Walk(ledger tip)`, read the unconfirmed table. The tables below
+the pool are the same (`crash_recovery_confluent`); only the pending transactions are lost, none of their effects stays. -/
+theorem crash_recovery_same_state_refuted : ¬ crash_recovery_same_state_statement := by
+  intro h
+  have W : WalkTree cEnv cM.s.pointer cM.l.tip :=
+    ⟨parentLower_of_blocks _ (by decide), ⟨1, by decide, by decide⟩, by decide, by decide⟩
+  have := h cEnv cM W
+  revert this
+  decide
+
+/-- **(c), every crash state of every history: a successful restart lands on the canonical state of the ledger
+tip.** The recovered state points at the ledger tip and its tables are those of the canonical state of the tip (the
+replay of the tip's chain from the base state) with the recovered pool applied; the ledger is untouched. The same
+holds for the end of the uninterrupted run (it is one of the crash states), so both show the same tables below
+their pools — whatever batch was the last one written. -/
+theorem crash_recovery_canonical (e : Env) (g : St) (n : Node) (ops : List Op) (H : History e g n ops)
+    (hpl : ParentLower e) (x : Node) (hx : x ∈ crashStates e n ops) (hid : (e.block x.l.tip).id = x.l.tip)
+    (hok : (recover e x).2 = true) :
+    (recover e x).1.l = x.l ∧ (recover e x).1.s.pointer = x.l.tip ∧
+    TRefines (recover e x).1.s (applyPool e (recover e x).1.s.pool (canon e g x.l.tip)) := by
+  have hS := history_SInv e g n ops H x hx
+  unfold recover at hok ⊢
+  by_cases hp : x.s.pointer = x.l.tip
+  · rw [if_pos hp]
+    refine ⟨rfl, hp, ?_⟩
+    have := hS.tables
+    rw [hp] at this
+    exact this
+  · rw [if_neg hp] at hok ⊢
+    obtain ⟨h1, h2⟩ := hS.recover hpl H.kv (H.tree _) (lh x) x.l.tip false hid hok
+    exact ⟨rfl, h1, h2⟩
+
+/-- two crash states of a history with the same ledger tip — e.g. what a crash left and the end of the uninterrupted
+run — whose restarts succeed with empty pools show the same tables: every row, every key version, the total -/
+theorem crash_recovery_same_tables (e : Env) (g : St) (n : Node) (ops : List Op) (H : History e g n ops)
+    (hpl : ParentLower e) (x y : Node) (hx : x ∈ crashStates e n ops) (hy : y ∈ crashStates e n ops)
+    (htip : x.l.tip = y.l.tip) (hid : (e.block x.l.tip).id = x.l.tip)
+    (hokx : (recover e x).2 = true) (hoky : (recover e y).2 = true)
+    (hpx : (recover e x).1.s.pool = []) (hpy : (recover e y).1.s.pool = []) :
+    ObsT (recover e x).1.s (recover e y).1.s ∧ (recover e x).1.s.pointer = (recover e y).1.s.pointer := by
+  obtain ⟨_, a2, a3⟩ := crash_recovery_canonical e g n ops H hpl x hx hid hokx
+  obtain ⟨_, b2, b3⟩ := crash_recovery_canonical e g n ops H hpl y hy (by rw [← htip]; exact hid) hoky
+  rw [hpx] at a3
+  rw [hpy, ← htip] at b3
+  exact ⟨a3.obs.trans b3.obs.symm, by rw [a2, b2, htip]⟩
+
+-- every crash state of the example history: the restart succeeds, ends at the ledger tip of that crash state, and the
+-- rows / live keys / total are those of the canonical state of that tip with the recovered pool applied
+example : ∀ x ∈ crashStates cEnv cN cOps, (recover cEnv x).2 = true ∧ (recover cEnv x).1.s.pointer = x.l.tip ∧
+    rowsEq (recover cEnv x).1.s.U (applyPool cEnv (recover cEnv x).1.s.pool (canon cEnv cG x.l.tip)).U = true ∧
+    rowsEq (recover cEnv x).1.s.ZU (applyPool cEnv (recover cEnv x).1.s.pool (canon cEnv cG x.l.tip)).ZU = true ∧
+    (recover cEnv x).1.s.total = (applyPool cEnv (recover cEnv x).1.s.pool (canon cEnv cG x.l.tip)).total := by decide
+
+-- ------------------------------------------------------------------ 2 (d). the irreversible height
+
+/-- **(d) along a consensus walk the irreversible height never decreases from batch to batch**: the list "state before
+the walk, then the trace" is sorted, and every element is at most the value the walk ends with — the value a crash
+leaves behind is one the uninterrupted walk passes through, between the value before and the value after (C17) -/
+theorem crash_irrev_along_walk (e : Env) (s : St) (lh : Int) (dest : Nat) :
+    IrrevSorted (s :: walkTrace e s lh dest false) ∧
+    ∀ x ∈ walkTrace e s lh dest false, s.irrev ≤ x.irrev ∧ x.irrev ≤ (walk e s lh dest false).1.irrev := by
+  obtain ⟨h1, h2⟩ := walkTrace_irrev_sorted e s lh dest
+  exact ⟨h1, fun x hx => ⟨(List.pairwise_cons.mp h1).1 x hx, h2 x hx⟩⟩
+
+/-- **(d) along a history without pruning walks the irreversible height never decreases from one crash state to the
+next** (in the order in which the write groups are issued), and in every crash state it lies between the value the
+history starts with and the value the uninterrupted run ends with; a restart never lowers it either
+(C17 `walk_irrev_mono`) -/
+theorem crash_irrev_monotone (e : Env) (n : Node) (ops : List Op) (hpf : PruneFree ops) :
+    (crashStates e n ops).Pairwise (fun a b => a.s.irrev ≤ b.s.irrev) ∧
+    (∀ x ∈ crashStates e n ops, n.s.irrev ≤ x.s.irrev ∧ x.s.irrev ≤ (run e n ops).s.irrev) ∧
+    (∀ x ∈ crashStates e n ops, x.s.irrev ≤ (recover e x).1.s.irrev) := by
+  refine ⟨crashStates_irrev_sorted e ops n hpf, crashStates_irrev_bounds e ops n hpf, ?_⟩
+  intro x _
+  unfold recover
+  split
+  · exact Int.le_refl _
+  · exact XV.C17.walk_irrev_mono e x.s (lh x) x.l.tip
+
+-- the irreversible height along the crash states of the example history (window 1: it moves to 1 when block 4, height
+-- 2, is applied inside the walk), and after the restart from each of them
+example : PruneFree cOps ∧
+    (crashStates cEnv cN cOps).map (·.s.irrev) = [0, 0, 0, 0, 0, 0, 0, 0, 0, 0, 0, 0, 0, 0, 0, 0, 1, 1, 1] ∧
+    (crashStates cEnv cN cOps).map (fun x => (recover cEnv x).1.s.irrev) =
+      [0, 0, 0, 0, 0, 0, 0, 0, 0, 0, 0, 1, 1, 1, 1, 1, 1, 1, 1] := by decide
+-- a pruning walk lowers it (why `PruneFree` is asked): from block 4 (irreversible height 1) back to block 1; the last
+-- batch re-admits 23
+example : (walkTrace cEnv (run cEnv cN cOps).s 2 1 true).map (fun x => (x.pointer, x.irrev, x.pool)) =
+    [(4, 1, []), (3, 1, []), (1, 0, []), (1, 0, [23])] := by decide
+
+end XV.C06
